@@ -1,6 +1,6 @@
 #!/bin/sh
-# Builds the framework from files on disk only (offline): the Lean project (model, theorems, driver)
-# and the Go tools. ./check rebuilds whatever depends on /repo on every run.
+# Builds the framework from files on disk only (offline): the Go tools, the facts regenerated from the repository's
+# current working tree, the Lean project (model, theorems, driver). ./check rebuilds whatever depends on /repo on every run.
 set -e
 cd "$(dirname "$0")"
 export GOFLAGS=-mod=mod GOPROXY=off GOSUMDB=off GOTOOLCHAIN=local
@@ -8,5 +8,9 @@ mkdir -p build replays evidence
 cp "${VERIF_REPO:-/repo}/go.sum" go/go.sum
 (cd go && go build -tags verif -o ../build/harness ./cmd/harness)
 (cd goext && go build -o ../build/extract .)
-(cd lean && lake build GtfsVerif driver)
+./regen.sh
+# the driver must build; the theorem modules are built here to warm the cache - a module that no longer checks against
+# the repository's current facts is reported by the check of its property, not by the set-up
+(cd lean && lake build driver)
+(cd lean && lake build GtfsVerif) || echo "setup: some theorem modules do not build against the current facts (their checks will report it)"
 echo setup done
